@@ -70,21 +70,22 @@ def classify(spec, opts, dname, lname, msg):
     F26: an eager reader in a deep context sees an earlier, still empty container (a private inline copy instead)."""
     mechs = []
     cur = spec
-    for _ in range(4):
-        if 'sharing differs' in msg and 'F19' not in mechs:
+    for _ in range(6):
+        if 'sharing differs' in msg:
             cur, changed = SH.unshare(cur)
             name = 'F19'
-        elif '.restored' in msg and 'sharing differs' not in msg and 'F25' not in mechs:
+        elif '.restored' in msg and 'F25' not in mechs:
             cur, changed = SH.truthy_states(cur)
             name = 'F25'
-        elif ('.size' in msg or '.seen' in msg) and 'sharing differs' not in msg and 'F26' not in mechs:
+        elif ('.size' in msg or '.seen' in msg) and 'F26' not in mechs:
             cur, changed = SH.privatize(cur)
             name = 'F26'
         else:
             return None
         if not changed:
             return None
-        mechs.append(name)
+        if name not in mechs:
+            mechs.append(name)
         try:
             ref2 = pickle.loads(pickle.dumps(SH.build(cur), 2))
             y2 = yaml.load(yaml.dump(SH.build(cur), Dumper=getattr(yaml, dname), **opts), Loader=getattr(yaml, lname))
